@@ -484,7 +484,7 @@ struct Gen {
 
 impl Gen {
     /// all child lists for a block at remaining depth `depth`
-    fn lists(&self, depth: usize, in_rule: bool, in_at: usize) -> Vec<Vec<N>> {
+    fn lists(&self, depth: usize, in_rule: bool, in_at: usize, in_style: bool) -> Vec<Vec<N>> {
         let mut singles: Vec<N> = Vec::new();
         if in_rule {
             singles.push(N::Decl(format!("p{}", depth), "v".into()));
@@ -496,21 +496,22 @@ impl Gen {
         if depth > 0 {
             let sels: Vec<&str> = if in_rule { SELS_IN_RULE[..self.sels.min(SELS_IN_RULE.len())].to_vec() } else { SELS_TOP.to_vec() };
             for s in sels {
-                for ch in self.lists(depth - 1, true, in_at) {
+                for ch in self.lists(depth - 1, true, in_at, true) {
                     singles.push(N::Rule(s.to_string(), ch));
                 }
             }
             if in_at < 2 {
-                for ch in self.lists(depth - 1, in_rule, in_at + 1) {
+                for ch in self.lists(depth - 1, in_rule, in_at + 1, in_style) {
                     singles.push(N::Media(if in_at == 0 { "(m)".into() } else { "(n)".into() }, ch.clone()));
                     singles.push(N::Supports("(s: t)".into(), ch.clone()));
                     singles.push(N::Unknown("x y".into(), ch));
                 }
             }
-            if in_rule {
+            // @at-root wherever a style rule encloses it (also directly inside another @at-root)
+            if in_style {
                 for q in &AT_ROOT_Q[..self.queries.min(AT_ROOT_Q.len())] {
                     let inner_rule = matches!(q, Some("(without: media)") | Some("(with: rule)") | Some("(without: supports)"));
-                    for ch in self.lists(depth - 1, inner_rule, in_at) {
+                    for ch in self.lists(depth - 1, inner_rule && in_rule, in_at, in_style) {
                         singles.push(N::AtRoot(q.map(|s| s.to_string()), ch));
                     }
                 }
@@ -604,24 +605,60 @@ fn run_trees(ctx: &Ctx, sub: &'static str, bound: &str, trees: &[Vec<N>]) {
 pub fn run(ctx: &Ctx) {
     // depth 2, full alphabet, sibling pairs
     let g2 = Gen { sels: 12, queries: 7, pairs: true };
-    let t2 = g2.lists(2, false, 0);
+    let t2 = g2.lists(2, false, 0, false);
     run_trees(ctx, "depth2", "all trees of depth <= 2 below the root (style rules with 12 selector forms incl. `&` alone / suffix / compound / repeated / in :not() / in lists, nested properties with and without a value, @media, @supports, unknown at-rule, @at-root with 7 queries, declarations), each child list alone and with a declaration / rule sibling before, after and around", &t2);
     // depth 3, reduced alphabets
     let g3 = Gen { sels: ctx.pick(5, 12), queries: 7, pairs: false };
-    let t3 = g3.lists(3, false, 0);
+    let t3 = g3.lists(3, false, 0, false);
     run_trees(ctx, "depth3", "all single-child chains of depth 3 over the first 5 (thorough 12) selector forms and all 7 @at-root queries", &t3);
     let g3p = Gen { sels: ctx.pick(2, 4), queries: ctx.pick(4, 7), pairs: true };
-    let t3p = g3p.lists(3, false, 0);
+    let t3p = g3p.lists(3, false, 0, false);
     run_trees(ctx, "depth3-siblings", "all trees of depth 3 with a declaration / rule sibling before, after and around at every level over 2 (thorough 4) selector forms and 4 (thorough 7) @at-root queries", &t3p);
     let g4 = Gen { sels: ctx.pick(2, 4), queries: 7, pairs: false };
-    let t4 = g4.lists(4, false, 0);
+    let t4 = g4.lists(4, false, 0, false);
     run_trees(ctx, "depth4", "all single-child chains of depth 4 over 2 (thorough 4) selector forms and all 7 @at-root queries (two nested at-rules around a rule around @at-root)", &t4);
+    {
+        // @at-root directly inside @at-root, with statements after the inner one
+        let leaf = |sel: &str| N::Rule(sel.to_string(), vec![N::Decl("p".into(), "v".into())]);
+        let inner_bodies: Vec<Vec<N>> = vec![vec![leaf("c")], vec![leaf("& c")], vec![N::Media("(n)".into(), vec![leaf("c")])], vec![N::Supports("(s: t)".into(), vec![leaf("c")])]];
+        let afters: Vec<Vec<N>> = vec![
+            vec![leaf("g")],
+            vec![leaf("&-g")],
+            vec![N::Media("(n)".into(), vec![leaf("g")])],
+            vec![N::Supports("(s: t)".into(), vec![leaf("g")])],
+            vec![N::Unknown("x y".into(), vec![leaf("g")])],
+            vec![N::AtRoot(None, vec![leaf("g")]), leaf("h")],
+        ];
+        let mut trees: Vec<Vec<N>> = Vec::new();
+        for q1 in AT_ROOT_Q {
+            for q2 in AT_ROOT_Q {
+                for ib in &inner_bodies {
+                    for af in &afters {
+                        for befores in [false, true] {
+                            let mut outer_body: Vec<N> = Vec::new();
+                            if befores {
+                                outer_body.push(leaf("e"));
+                            }
+                            outer_body.push(N::AtRoot(q2.map(|s| s.to_string()), ib.clone()));
+                            outer_body.extend(af.clone());
+                            let outer = N::AtRoot(q1.map(|s| s.to_string()), outer_body);
+                            trees.push(vec![N::Rule("b".into(), vec![outer.clone()])]);
+                            trees.push(vec![N::Rule("b, c".into(), vec![N::Decl("z".into(), "y".into()), outer.clone(), N::Decl("z2".into(), "y".into())])]);
+                            trees.push(vec![N::Media("(m)".into(), vec![N::Rule("b".into(), vec![outer.clone()])])]);
+                            trees.push(vec![N::Rule("b".into(), vec![N::Supports("(s: t)".into(), vec![outer.clone()])])]);
+                        }
+                    }
+                }
+            }
+        }
+        run_trees(ctx, "at-root-nesting", "7 x 7 @at-root queries nested directly in each other x 4 inner bodies x 6 kinds of statements after the inner one x with / without a rule before x 4 enclosing contexts", &trees);
+    }
+    let g5 = Gen { sels: ctx.pick(1, 3), queries: 7, pairs: false };
+    let t5 = g5.lists(5, false, 0, false);
+    run_trees(ctx, "depth5", "all single-child chains of depth 5 over 1 (thorough 3) selector forms and all 7 @at-root queries (e.g. @media > rule > @at-root > @media > rule)", &t5);
     if ctx.thorough() {
-        let g5 = Gen { sels: 3, queries: 7, pairs: false };
-        let t5 = g5.lists(5, false, 0);
-        run_trees(ctx, "depth5", "all single-child chains of depth 5 over 3 selector forms and all 7 @at-root queries", &t5);
         let g4p = Gen { sels: 1, queries: 3, pairs: true };
-        let t4p = g4p.lists(4, false, 0);
+        let t4p = g4p.lists(4, false, 0, false);
         run_trees(ctx, "depth4-siblings", "all trees of depth 4 with sibling pairs at every level over 1 selector form and 3 @at-root queries", &t4p);
     }
     ctx.assume("reference flattener of DESIGN A.2 (a style rule's block receives all its direct declarations; children follow in source order; nested @media joins features with `and`); selector lists are compared in order");
